@@ -49,38 +49,60 @@ struct RecyclePool {
     void *ptr[SLOTS];
     size_t size[SLOTS];
     RecyclePool() { for (int i = 0; i < SLOTS; ++i) { ptr[i] = nullptr; size[i] = 0; } }
+    // sizes up to 8 KiB: one slot per size class (size % SLOTS); bigger blocks (up to 4 MiB): three slots, oldest replaced
+    enum { BIG = 3, SMALL_MAX = 8192, BIG_MAX = 4 << 20 };
+    void *bptr[BIG] = {nullptr, nullptr, nullptr};
+    size_t bsize[BIG] = {0, 0, 0};
+    unsigned bnext = 0;
+    static void unpoison(void *p, size_t n)
+    {
+#ifdef VRT_HAVE_ASAN
+        __asan_unpoison_memory_region(p, n);
+#else
+        (void)p; (void)n;
+#endif
+    }
+    static void poison(void *p, size_t n)
+    {
+#ifdef VRT_HAVE_ASAN
+        __asan_poison_memory_region(p, n);
+#else
+        (void)p; (void)n;
+#endif
+    }
     void *take(size_t bytes)
     {
-        if (!placement_here() || bytes == 0 || bytes > 8192) return nullptr;
-        const size_t k = bytes % SLOTS;
-        if (ptr[k] && size[k] == bytes) {
-            void *p = ptr[k];
-            ptr[k] = nullptr;
-#ifdef VRT_HAVE_ASAN
-            __asan_unpoison_memory_region(p, bytes);
-#endif
-            static uint64_t &c = counter("placement.blocks_reusing_the_address_of_a_dead_one");
-            ++c;
-            return p;
+        if (!placement_here() || bytes == 0 || bytes > BIG_MAX) return nullptr;
+        void *p = nullptr;
+        if (bytes <= SMALL_MAX) {
+            const size_t k = bytes % SLOTS;
+            if (ptr[k] && size[k] == bytes) { p = ptr[k]; ptr[k] = nullptr; }
+        } else {
+            for (int i = 0; i < BIG; ++i)
+                if (bptr[i] && bsize[i] == bytes) { p = bptr[i]; bptr[i] = nullptr; break; }
         }
-        return nullptr;
+        if (!p) return nullptr;
+        unpoison(p, bytes);
+        static uint64_t &c = counter("placement.blocks_reusing_the_address_of_a_dead_one");
+        ++c;
+        return p;
     }
     // returns true when the block was parked (caller must not free it)
     bool park(void *p, size_t bytes)
     {
-        if (!placement_here() || !placement_shifts() || bytes == 0 || bytes > 8192 || (placement_next() & 3) != 0) return false;
-        const size_t k = bytes % SLOTS;
-        if (ptr[k]) {
-#ifdef VRT_HAVE_ASAN
-            __asan_unpoison_memory_region(ptr[k], size[k]);
-#endif
-            free(ptr[k]);
+        if (!placement_here() || !placement_shifts() || bytes == 0 || bytes > BIG_MAX || !placement_park_decision()) return false;
+        if (bytes <= SMALL_MAX) {
+            const size_t k = bytes % SLOTS;
+            if (ptr[k]) { unpoison(ptr[k], size[k]); free(ptr[k]); }
+            ptr[k] = p;
+            size[k] = bytes;
+        } else {
+            const unsigned k = bnext++ % BIG;
+            if (bptr[k]) { unpoison(bptr[k], bsize[k]); free(bptr[k]); }
+            bptr[k] = p;
+            bsize[k] = bytes;
         }
-        ptr[k] = p;
-        size[k] = bytes;
-#ifdef VRT_HAVE_ASAN
-        __asan_poison_memory_region(p, bytes);
-#endif
+        poison(p, bytes);
         return true;
     }
 };
